@@ -11,8 +11,9 @@ import BpProofs.ChanAux
   fires) — no bound on any of them.  The model is of the code WITH the D06 repair
   (`task_done()` only after a successful `get()`).
 
-  Liveness is stated as safety (`quiescent_closed_no_blocked_receiver`, `woken_runnable`):
-  that the event loop eventually runs every ready handle is asyncio's fairness, not modelled.
+  Liveness: here as safety (`quiescent_closed_no_blocked_receiver`, `woken_runnable`); that every
+  schedule is finite and ends in such a quiescent state — no fairness assumption — is
+  Props/C12Term.lean (`step_decreases`, `schedules_bounded`, `terminates_no_blocked_receiver`).
 -/
 namespace Bp.C12
 open Bp.Chan
